@@ -174,6 +174,29 @@ async fn main() {
     });
     check(batch.is_some_and(|b| b.statements.len() == 2 && matches!(&b.statements[0], BatchStmt::Prepared { values, .. } if values.len() == 2)), "BATCH body decoded: prepared + query statement");
 
+    // ---- RawFill: a streamed 3 MB blob cell that is never materialised by the mock ------------------
+    const L: usize = 3_000_000;
+    cluster.set_handler(Some(Arc::new(|ctx: &ReqCtx| {
+        if ctx.text.as_deref() != Some("SELECT big FROM ks.t") {
+            return None;
+        }
+        let spec = RowsSpec::new(vec![ColSpec::new("ks", "t", "big", CqlType::Blob)], vec![vec![cell::blob(&[])]]).with_meta(MetaMode::Full);
+        let mut body = types::body_result_rows(&spec, false);
+        let n = body.len();
+        body[n - 4..].copy_from_slice(&(L as i32).to_be_bytes());
+        let mut head = Frame::response(ctx.stream, op::RESULT, vec![]).encode();
+        head[5..9].copy_from_slice(&((body.len() + L) as u32).to_be_bytes());
+        head.extend_from_slice(&body);
+        Some(vec![Action::RawFill { head, fill_len: L as u64, seed: 7, inserts: vec![(65534, vec![1, 2, 3, 4])], tail: vec![] }])
+    })));
+    let big = session.query_unpaged("SELECT big FROM ks.t", ()).await.expect("big").into_rows_result().unwrap().single_row::<(Vec<u8>,)>().unwrap().0;
+    let mut expect: Vec<u8> = (0..L).map(|i| ((i + 7) % 251) as u8).collect();
+    expect[65534..65538].copy_from_slice(&[1, 2, 3, 4]);
+    check(big == expect, "RawFill streamed a 3 MB cell with the documented pattern and an insert across a chunk boundary");
+    let tr = cluster.drain_trace();
+    check(tr.iter().any(|e| matches!(&e.ev, Ev::RawFillOut { fill_len, seed: 7, .. } if *fill_len == L as u64)), "trace holds the RawFillOut description, not the bytes");
+    cluster.set_handler(None);
+
     // ---- stop / start a node, add a node ----------------------------------------------------------------
     cluster.stop_node(2, CutKind::Rst);
     wait_until("node 2 has no connections after stop_node", || cluster.connections(Some(2)).is_empty()).await;
